@@ -40,6 +40,8 @@ def one_case(case):
         tr = list(inv.transmissions())
         info["ntrans"] = sum(1 for x in tr if x[1] is not None)
         info["ties"] = len(tr) - len({x[0] for x in tr})
+        fin = [x[0] for x in tr if x[0] < 1e17]
+        info["simtime"] = float(max(fin) - case["tmin"]) if fin else 0.0
         info["digest"] = hashlib.sha256(repr((tr, [inv.node_history(x) for x in labels])).encode()).hexdigest()[:16]
     except Exception:
         pass
@@ -54,7 +56,7 @@ def run_one(family, rng, idx, tier):
         stats["fault_F1_%s" % k] = n
     if info["status"] not in ("done", "exc"):
         return {"skipped": "seam: %s" % info["status"], "stats": stats}
-    out = {"viol": v, "stats": stats}
+    out = {"viol": v, "stats": stats, "simtime": min(1000.0, max(0.0, info.get("simtime", 0.0)))}
     if info["ntrans"] and info["digest"]:
         out["keys"] = ["%s|%s" % (family, info["digest"])]
     if idx < 1:
